@@ -67,12 +67,20 @@ def render(spec):
             out.append(f"    {n['name']}: reg32.{'PushOnNotify' if n['kind'] == 'push' else 'FlagOnNotify'}."
                        f"{'Read' if n['on'] == 'r' else 'Write'}")
         out.append("")
+    def file_class(f, cname):
+        # inner files first (a class must exist before it is used in an annotation of the outer one)
+        for m in f["items"]:
+            if m["what"] == "file":
+                file_class(m, f"{cname}_{m['name']}")
+        out.append(f"class {cname}(reg32.RegFile, word_count={f['word_count']}):")
+        for m in f["items"]:
+            ty = f"{cname}_{m['name']}" if m["what"] == "file" else _type_of(spec, m)
+            out.append(f"    {m['name']}: {ty}[0x{m['off']:x}]")
+        out.append("")
+
     for it in spec["items"]:
         if it["what"] == "file":
-            out.append(f"class F_{it['name']}(reg32.RegFile, word_count={it['word_count']}):")
-            for m in it["items"]:
-                out.append(f"    {m['name']}: {_type_of(spec, m)}[0x{m['off']:x}]")
-            out.append("")
+            file_class(it, f"F_{it['name']}")
     wc = f", word_count={spec['word_count']}" if spec.get("word_count") else ""
     out.append(f"class Root(reg32.AddrMap{wc}):")
     for it in spec["items"]:
@@ -90,8 +98,20 @@ def render(spec):
     hw = spec["entry"] == "base"
     cfg, conc, seq = [], [], []
     for it in spec["items"]:
-        if it["what"] == "mem" and it.get("initial") is not None:
-            cfg.append(f"self.{it['name']}._config_(initial={'Full' if it['initial'] else 'Null'})")
+        if it["what"] == "mem":
+            args = []
+            if it.get("initial") is not None:
+                args.append(f"initial={'Full' if it['initial'] else 'Null'}")
+            mode = it.get("mode", "immediate")
+            if mode != "immediate" or it.get("mode_explicit"):
+                args.append("mask_mode=reg32.Memory.MaskMode." +
+                            {"immediate": "IMMEDIATE", "ignore": "IGNORE", "readback": "READBACK", "split": "SPLIT_WORDS"}[mode])
+            if it.get("unaligned"):
+                args.append("allow_unaligned=True")
+            if it.get("inline"):
+                args.append("inline=True")
+            if args:
+                cfg.append(f"self.{it['name']}._config_({', '.join(args)})")
     for inst in insts:
         p, k, what = inst["path"], inst["idx"], inst["what"]
         if what in ("word", "uword", "memword", "memuword"):
